@@ -51,7 +51,17 @@ def _build_route(
         action_type=action_type,
     )
 
-    return validator.validate(tokeniser)
+    routes = validator.validate(tokeniser)
+
+    # `split` is a keyword of these forms as well, and ParseAnnounce.post() only splits what is already in the scope
+    # (on the API path nothing is): `announce ipv4 unicast 10.0.0.0/24 next-hop 192.0.2.1 split /25` was answered done
+    # and announced as the /24
+    from exabgp.configuration.static.route import ParseStaticRoute
+
+    result: list['Route'] = []
+    for route in routes:
+        result.extend(ParseStaticRoute.split(route))
+    return result
 
 
 def _build_type_selector_route(
